@@ -107,8 +107,9 @@ def cat_of(v, it=None):
 
 
 # --------------------------------------------------------------- emission ---
-def fmt_emit(fmt, args):
-    """render a println format with abstract arguments"""
+def fmt_emit(fmt, args, syms=None):
+    """render a println format with abstract arguments; symbolic arguments are rendered as
+    `{repr}` and remembered in `syms` (text -> value)"""
     out = []
     i = 0
     ai = 0
@@ -140,7 +141,11 @@ def fmt_emit(fmt, args):
         elif isinstance(a, float):
             out.append(repr(a))
         else:
-            out.append('{%r}' % (a,))
+            txt = '{%r}' % (a,)
+            txt = txt.replace(',', ';')      # keep operand splitting simple
+            if syms is not None:
+                syms[txt] = a
+            out.append(txt)
         i = j + 1
     return ''.join(out)
 
@@ -151,9 +156,10 @@ class Trace:
     def __init__(self, ctx):
         self.ctx = ctx
         self.items = []   # ('asm', text, fmt, args) | ('expr', obj) | ('addr', obj) | ('stmt', obj) | ('call', name, args)
+        self.syms = {}
         for e in ctx.events:
             if e[0] == 'emit':
-                self.items.append(('asm', fmt_emit(e[1], e[2]), e[1], e[2]))
+                self.items.append(('asm', fmt_emit(e[1], e[2], self.syms), e[1], e[2]))
             elif e[0] in ('gen_expr', 'gen_addr', 'gen_stmt'):
                 self.items.append((e[0][4:], e[1]))
             elif e[0] == 'call':
